@@ -906,6 +906,144 @@ VCLAUSE(statistics_special, 60, 30000, 600000, "parameter at the bound, or withi
 	}
 }
 
+// ---- degenerate sizes at guarded entry points ------------------------------------------------------------------------------------
+// Size 0 (and 1 where 2 is the minimum) on the entry points that carry a size guard. Whether "the transpose of no lists" is meaningful is a
+// matter of taste, so either outcome of the statement is accepted - a clean diagnostic exit or a normal return - but nothing in between:
+// no read outside the object (the sanitizers and the signal handler decide that), no exit with success status, no silent exit.
+#define EITHER(c, name, ...)                                                                                          \
+	do                                                                                                               \
+	{                                                                                                                \
+		::vf::GuardResult _gr = ::vf::guarded([&]() { __VA_ARGS__; });                                               \
+		(c).cls(_gr.exited ? name "/diagnosed" : name "/returned");                                                  \
+		if(_gr.exited && _gr.code == 0)                                                                              \
+			VFAIL("EXIT WITH SUCCESS STATUS in " << name << " at " << __FILE__ << ":" << __LINE__);                   \
+		if(_gr.exited && !_gr.output)                                                                                \
+			VFAIL("EXIT WITHOUT DIAGNOSTIC in " << name << " at " << __FILE__ << ":" << __LINE__);                    \
+	} while(0)
+
+VCLAUSE(empty_objects, 20, 6000, 120000, "the object or list has size zero")
+{
+	Src& s = c.s;
+	c.nt();
+	int which = (int) s.range(0, 11);
+	int n	  = s.coin() ? 0 : (int) s.range(0, 2);
+	VLOG(c, "degenerate request " << which << " with size " << n);
+	switch(which)
+	{
+		case 0:
+		{
+			std::vector<std::vector<double>> l((size_t) n, std::vector<double>((size_t) s.range(0, 2), 1.5));
+			std::vector<std::vector<double>> t;
+			::vf::GuardResult g = ::vf::guarded([&]() { t = Transpose_Lists(l); });
+			c.cls(g.exited ? "Transpose_Lists/diagnosed" : "Transpose_Lists/returned");
+			VCHECK(!g.exited || (g.code != 0 && g.output), "Transpose_Lists of " << n << " lists: exit without failure status or diagnostic");
+			if(!g.exited && n > 0)
+				VCHECK(t.size() == l[0].size(), "Transpose_Lists of " << n << " lists of " << l[0].size() << " returned " << t.size() << " lists");
+			if(!g.exited && n == 0)
+				VCHECK(t.empty(), "Transpose_Lists of no lists returned " << t.size() << " lists");
+			break;
+		}
+		case 1:
+		{
+			std::vector<int> v((size_t) n, 7), r;
+			int i1 = (int) s.range(-2, 3);
+			unsigned i2 = (unsigned) s.range(0, 4);
+			::vf::GuardResult g = ::vf::guarded([&]() { r = Sub_List(v, i1, i2); });
+			c.cls(g.exited ? "Sub_List/diagnosed" : "Sub_List/returned");
+			VCHECK(!g.exited || (g.code != 0 && g.output), "Sub_List: exit without failure status or diagnostic");
+			int lo = std::max(i1, 0), hi = std::min((int) i2, n - 1);
+			if(!g.exited)
+				VCHECK((int) r.size() == std::max(0, hi - lo + 1), "Sub_List(size " << n << "," << i1 << "," << i2 << ") returned " << r.size() << " elements");
+			break;
+		}
+		case 2:
+		{
+			std::vector<std::vector<int>> l((size_t) n);
+			std::vector<int> f;
+			VMUST_RETURN("Flatten_List / List_Contains / Find_Indices / Combine_Lists of empty lists", f = Flatten_List(l); g_sink = List_Contains(f, 3) + (double) Find_Indices(f, 3).size() + (double) Combine_Lists(f, f).size());
+			VCHECK(f.empty() && g_sink == 0, "empty lists: Flatten/Contains/Find/Combine gave " << f.size() << "," << g_sink);
+			break;
+		}
+		case 3:
+		{
+			std::vector<double> pred((size_t) n, 2.0), bkg((size_t) n, 0.5);
+			std::vector<unsigned long int> obs((size_t) n, 1);
+			EITHER(c, "Likelihood_Poisson_Binned(size 0..2)", g_sink = Likelihood_Poisson_Binned(pred, obs, bkg) + Log_Likelihood_Poisson_Binned(pred, obs));
+			break;
+		}
+		case 4:
+		{
+			Vector v((unsigned) n), w((unsigned) n);
+			EITHER(c, "Vector(size 0..2) arithmetic", Vector u = v + w; u -= w; g_sink = u.Dot(w) + u.Norm() + (double) (u == w) + (double) u.Size());
+			if(n == 0)
+				VMUST_EXIT("index 0 of an empty Vector", g_sink = v[0]);
+			break;
+		}
+		case 5:
+		{
+			int m = (int) s.range(0, 2);
+			Matrix A((unsigned) n, (unsigned) m), B((unsigned) n, (unsigned) m);
+			EITHER(c, "Matrix(0..2 x 0..2) arithmetic", Matrix C = A + B; C -= B; Matrix T = C.Transpose(); g_sink = (double) T.Rows() + (double) (C == B) + (double) C.Square());
+			if(n == 0)
+				VMUST_EXIT("row 0 of a Matrix without rows", g_sink = (double) A[0].size());
+			break;
+		}
+		case 6:
+		{
+			Matrix A((unsigned) n, (unsigned) n);
+			EITHER(c, "Determinant/Trace/Invertible of a 0..2 square zero matrix", g_sink = A.Trace() + A.Determinant() + (double) A.Invertible());
+			break;
+		}
+		case 7:
+		{
+			int nx = (int) s.range(0, 2), ny = (int) s.range(0, 2);
+			std::vector<double> x((size_t) nx), y((size_t) ny);
+			for(int i = 0; i < nx; i++)
+				x[(size_t) i] = i;
+			for(int j = 0; j < ny; j++)
+				y[(size_t) j] = j;
+			std::vector<std::vector<double>> f((size_t) nx, std::vector<double>((size_t) ny, 1.0));
+			if(nx >= 2 && ny >= 2)
+				VMUST_RETURN("Interpolation_2D on a 2x2 grid", Interpolation_2D I(x, y, f); g_sink = I(0.5, 0.5));
+			else
+				REQUEST(c, "Interpolation_2D(grid with fewer than two points on an axis)", false, Interpolation_2D I(x, y, f); g_sink = I(0.0, 0.0));
+			break;
+		}
+		case 8:
+		{
+			std::vector<std::vector<double>> tab((size_t) n, std::vector<double> {0.0, 1.0});
+			for(int i = 0; i < n; i++)
+				tab[(size_t) i][0] = i;
+			REQUEST(c, "Interpolation(table of fewer than two points)", n >= 2, Interpolation I(tab); g_sink = I(0.0));
+			break;
+		}
+		case 9:
+		{
+			std::vector<double> l((size_t) n);
+			for(int i = 0; i < n; i++)
+				l[(size_t) i] = i;
+			EITHER(c, "Locate_Closest_Location(list of 0..2)", g_sink = Locate_Closest_Location(l, 0.3));
+			break;
+		}
+		case 10:
+		{
+			std::vector<std::vector<double>> rule;
+			EITHER(c, "Compute_Gauss_Legendre_Roots_and_Weights(0..2)", rule = libphysica::Compute_Gauss_Legendre_Roots_and_Weights((unsigned) n, 0.0, 1.0); g_sink = (double) rule.size());
+			std::vector<double> vals((size_t) n, 1.0);
+			std::vector<std::vector<double>> r2((size_t) n, std::vector<double> {0.5, 1.0});
+			EITHER(c, "Integrate_Gauss_Legendre(values, rule) of size 0..2", g_sink = libphysica::Integrate_Gauss_Legendre(vals, r2));
+			break;
+		}
+		default:
+		{
+			std::vector<std::vector<double>> tb((size_t) n, std::vector<double>((size_t) s.range(0, 2), 4.0));
+			std::vector<double> li((size_t) n, 4.0);
+			EITHER(c, "In_Units(list/table of size 0..2)", auto a = natural_units::In_Units(li, 2.0); auto b = natural_units::In_Units(tb, 2.0); g_sink = (double) a.size() + (double) b.size());
+			break;
+		}
+	}
+}
+
 // ---- lists, units, files -----------------------------------------------------------------------------------------------
 VCLAUSE(lists_utilities, 80, 20000, 400000, "lengths differ by one, or the upper index equals size-1/size/size+1")
 {
